@@ -12,7 +12,9 @@ from . import basis as gb
 TARGETS = ["fchk", "molden", "molekel", "wfn", "wfx"]
 SHELL_ORDERS = ["by_atom", "shuffled", "skipped_centres"]
 CONTRACTIONS = ["segmented", "sp", "generalized"]
-CONV_CLASSES = ["native", "horton2", "cca", "other_table", "random"]
+# "native_signs": the target's own ordering with sign flips only (no function changes place); "native_order_mixed": the target's own
+# ordering for some shell types, another table for the rest
+CONV_CLASSES = ["native", "horton2", "cca", "other_table", "random", "native_signs"]
 # "aminusb_zero": spin-unpolarised open shell (integer occupations incl. singly occupied orbitals, occs_aminusb explicitly zero)
 SPIN_KINDS = ["restricted", "rohf", "unrestricted", "aminusb", "fractional", "aminusb_zero"]
 
@@ -74,7 +76,7 @@ def make(rng, target, lmax=None, shell_order=None, contraction=None, conv_class=
 
     shell_order = shell_order or str(rng.choice(SHELL_ORDERS, p=[0.5, 0.3, 0.2]))
     contraction = contraction or str(rng.choice(CONTRACTIONS, p=[0.5, 0.25, 0.25]))
-    conv_class = conv_class or str(rng.choice(CONV_CLASSES, p=[0.3, 0.15, 0.15, 0.15, 0.25]))
+    conv_class = conv_class or str(rng.choice(CONV_CLASSES, p=[0.25, 0.15, 0.1, 0.15, 0.2, 0.15]))
     spin = spin or str(rng.choice(SPIN_KINDS))
     virtuals = bool(rng.integers(0, 2)) if virtuals is None else virtuals
     ghosts = str(rng.choice(["none", "ghost", "ecp"], p=[0.6, 0.2, 0.2])) if ghosts is None else ghosts
@@ -144,6 +146,11 @@ def make(rng, target, lmax=None, shell_order=None, contraction=None, conv_class=
             conv = {k: list(tabs["horton2"][k]) for k in keys}
         elif conv_class == "cca":
             conv = {k: list(tabs["cca"][k]) for k in keys}
+        elif conv_class == "native_signs":
+            conv = {k: [("" if (lab.startswith("-") or rng.random() < 0.5) else "-") + lab for lab in native[k]] for k in keys}
+            if all(lab == nat for k in keys for lab, nat in zip(conv[k], native[k])):
+                k0 = keys[-1]
+                conv[k0][0] = "-" + conv[k0][0].lstrip("-")
         elif conv_class == "other_table":
             others = [t for n, t in tabs.items() if all(k in t for k in keys) and t is not native]
             t = others[int(rng.integers(len(others)))] if others else tabs["horton2"]
